@@ -118,8 +118,15 @@ class _Rec(HttpProxyBasePlugin):
         return self._request_hook('handle_client_request', request)
 
     def handle_client_data(self, raw: memoryview) -> Optional[memoryview]:
-        LOG.append((self.IDX, 'handle_client_data', bytes(raw[:20]), 'pass', None))
-        return raw
+        b = self._beh('handle_client_data') if (self.IDX, 'handle_client_data') in TABLE else 'pass'
+        ret: Optional[memoryview] = raw
+        if b == 'strip':
+            # "Return optionally modified client data": this plugin consumes its own one-byte marker, which may be all there is
+            ret = raw[1:] if bytes(raw[:1]) == b'%d' % self.IDX else raw
+        elif b == 'drop':
+            ret = None
+        LOG.append((self.IDX, 'handle_client_data', bytes(raw[:20]), b, bytes(ret[:20]) if ret is not None and b != 'pass' else None))
+        return ret
 
     def handle_upstream_chunk(self, chunk: memoryview) -> Optional[memoryview]:
         b = self._beh('handle_upstream_chunk')
@@ -342,9 +349,76 @@ def run_connect_drop(case: Dict[str, Any]) -> Dict[str, Any]:
     return {'viol': viol, 'nontrivial': True, 'sig': 'cdrop/%s/%s/%s' % (order, who, hook), 'obs': obs, 'sample': {'case': case}}
 
 
+def run_client_data_chain(case: Dict[str, Any]) -> Dict[str, Any]:
+    """handle_client_data is a hook of the plugin interface like the others: once a plugin has suppressed the upstream
+    connection, every later read from the client is offered to the plugins in configured order, each receiving what the previous
+    one returned; only None ends the chain - an EMPTY result (a plugin that consumed all there was) is data, not 'no data'."""
+    rng = random.Random('c09cd:%s:%s' % (case['seed'], case['i']))
+    order: List[int] = case['order']
+    TABLE.clear()
+    TABLE[(order[0], 'before_upstream_connection')] = ('drop', 0)
+    for idx, beh in case['behaviours'].items():
+        TABLE[(int(idx), 'handle_client_data')] = (beh, 0)
+    del LOG[:]
+    shim.S.reset()
+    flags = flags_for(order)
+    rig = StepRig(flags, case.get('mode', 'local'))
+    viol: List[Dict[str, Any]] = []
+    obs: Dict[str, int] = {'client_data_chain_cases': 1}
+    feat = 'handle_client_data|chain'
+    try:
+        origin = rig.add_origin('127.0.%d.%d' % (rng.randint(0, 250), rng.randint(2, 250)))
+        hp = origin.hostport
+        c = rig.add_client('unix')
+        c.send(b'GET http://%s/cd HTTP/1.1\r\nHost: %s\r\nX-Req-Id: cd\r\n\r\n' % (hp, hp))
+        rig.until(lambda: any(e[1] == 'handle_client_request' for e in LOG) or c.ended, [c], idle_timeout=0.4)
+        rig.settle([c], quiet=6)
+        expected: List[Tuple[int, bytes]] = []
+        got: List[Tuple[int, bytes]] = []
+        for piece in case['pieces']:
+            pb = piece.encode()
+            mark = len(LOG)
+            if c.ended:
+                break
+            c.send(pb)
+            rig.until(lambda: len(LOG) > mark or c.ended, [c], idle_timeout=0.4)
+            rig.settle([c], quiet=6)
+            data: Optional[bytes] = pb
+            for p_ in order:
+                assert data is not None
+                expected.append((p_, data[:20]))
+                beh = case['behaviours'].get(str(p_), 'pass')
+                if beh == 'drop':
+                    data = None
+                    break
+                if beh == 'strip' and data[:1] == b'%d' % p_:
+                    data = data[1:]
+            got = [(e[0], e[2]) for e in LOG[:] if e[1] == 'handle_client_data']
+        first = [e for e in LOG if e[1] == 'handle_client_data']
+        # calls made with the request bytes themselves (if any) are not part of this chain
+        got = [(e[0], e[2]) for e in first if not e[2].startswith(b'GET http://')]
+        detail = {'order': order, 'behaviours': case['behaviours'], 'pieces': case['pieces'], 'expected': expected[:12], 'got': got[:12], 'ended': c.ended}
+        if got != expected:
+            short = len(got) < len(expected) and got == expected[:len(got)]
+            viol.append({'key': feat + ('|later-plugin-not-offered-the-data' if short else '|calls-differ'), 'detail': detail})
+        else:
+            obs['client_data_chain_checked'] = 1
+            obs['client_data_calls_checked'] = len(got)
+            if any(d == b'' for _p, d in got):
+                obs['client_data_empty_results_passed_on'] = 1
+    except LoopDied as e:
+        viol.append({'key': feat + '|loop-died:%s' % e.where(), 'detail': {'tb': e.tb[-1000:]}})
+    finally:
+        rig.close()
+    return {'viol': viol, 'nontrivial': True, 'sig': 'cdchain/%s/%s/%s' % (order, sorted(case['behaviours'].items()), case['pieces']), 'obs': obs,
+            'sample': {'case': case}}
+
+
 def run_case(case: Dict[str, Any]) -> Dict[str, Any]:
     if case.get('kind') == 'connect-drop':
         return run_connect_drop(case)
+    if case.get('kind') == 'client-data-chain':
+        return run_client_data_chain(case)
     if case.get('kind') == 'auth-order':
         return run_auth_order(case)
     if case.get('kind') == 'resolve-chain':
@@ -708,6 +782,13 @@ def cases(tier: str, seed: int):
             for hook in REQ_HOOKS:
                 i += 1
                 yield {'seed': seed, 'i': i, 'kind': 'connect-drop', 'order': order, 'who': who, 'hook': hook, 'mode': 'local' if i % 3 else 'remote'}
+    for order in orders:
+        for bi, behs in enumerate([{}, {str(order[0]): 'strip'}, {str(order[-1]): 'strip'}, {str(x): 'strip' for x in order},
+                                   {str(order[0]): 'drop'}, {str(order[0]): 'strip', str(order[-1]): 'drop'}]):
+            i += 1
+            o0, o1 = order[0], order[-1]
+            yield {'seed': seed, 'i': i, 'kind': 'client-data-chain', 'order': order, 'behaviours': behs, 'mode': 'local' if i % 3 else 'remote',
+                   'pieces': ['%dhello' % o0, '%d' % o0, 'plain', '%d%d' % (o0, o1), '%d' % o1, '%dtail' % o1][bi % 2:]}
     # follow-ups arriving while the first answer is still queued for a client that does not read
     for order in orders:
         for (hook, beh, nth) in [('handle_client_request', 'reject', 2), ('handle_client_request', 'modify', 2), ('handle_client_request', 'reject', 3)]:
@@ -761,7 +842,7 @@ def floors(tier: str) -> Dict[str, int]:
     return {'chain_rounds_checked': 2000, 'chunk_rounds_checked': 500, 'lifecycle_checked': 800, 'rejections_checked': 100,
             'forwarded_requests_checked': 500, 'followups_checked': 300, 'distinct:hook_behaviour_position': 30,
             'ending:client-reset-mid-request': 10, 'ending:origin-reset-mid-response': 10, 'client_stream_vs_chain_checked': 100,
-            'auth_order_checked': 60, 'proxy_protocol:UNKNOWN': 20, 'proxy_protocol:TCP4': 20, 'followups_sent_behind_pending_output': 15, 'resolve_chain_checked': 30, 'connect_drop_checked': 30}
+            'auth_order_checked': 60, 'proxy_protocol:UNKNOWN': 20, 'proxy_protocol:TCP4': 20, 'followups_sent_behind_pending_output': 15, 'resolve_chain_checked': 30, 'connect_drop_checked': 30, 'client_data_chain_checked': 40, 'client_data_empty_results_passed_on': 15}
 
 
 if __name__ == '__main__':
